@@ -39,6 +39,11 @@ int sm2_ecdh(const SM2_KEY *key, const uint8_t *peer_public, size_t peer_public_
 		error_print();
 		return -1;
 	}
+	// the one-octet encoding 00 of the point at infinity is not a key-agreement share
+	if (sm2_z256_point_is_at_infinity(&point)) {
+		error_print();
+		return -1;
+	}
 	if (sm2_do_ecdh(key, &point, &point) != 1) {
 		error_print();
 		return -1;
